@@ -235,6 +235,7 @@ type Unit struct {
 	qid         int
 	globalEpoch int
 	closures    []*regClosure
+	boxed       map[string]boxedVal // interface terms built by MakeInterface in this unit: concrete type and value
 	Fn          *ssa.Function
 	OutOfSubset string
 	Returns     int
@@ -368,4 +369,9 @@ func (u *Unit) closureConst(c *Closure, x *Exec) Term {
 	u.AssumeRaw(Not(Eq(name, u.W.Const("fn.nil", SFn))))
 	u.closures = append(u.closures, &regClosure{c: c, name: name, key: key})
 	return name
+}
+
+type boxedVal struct {
+	T types.Type
+	V Value
 }
